@@ -918,11 +918,11 @@ impl BRC20ProgEngine {
         block_hash: B256,
         is_full: bool,
     ) -> Result<Option<BlockResponseED>, Box<dyn Error>> {
-        self.db.read_fn(|db| {
-            db.get_block_number(block_hash)?
-                .map_or(Ok(None), |block_number| {
-                    self.get_block_by_number(block_number.into(), is_full)
-                })
+        // Resolve the number first and release the lock: get_block_by_number takes the read lock itself,
+        // and a nested read acquisition deadlocks as soon as a writer queues up in between.
+        let block_number = self.db.read().get_block_number(block_hash)?;
+        block_number.map_or(Ok(None), |block_number| {
+            self.get_block_by_number(block_number.into(), is_full)
         })
     }
 
